@@ -320,7 +320,7 @@ class C17(Property):
     def check_header(self, world, m, t, what):
         hdr, titles = self.header_truth(t)
         info = m.project_info
-        if [k for k, _ in hdr] != list(info.keys()):
+        if sorted(k for k, _ in hdr) != sorted(info.keys()):   # the same entries; their order is not part of the statement
             raise Violation("mdoc_header", "keys", "%s: header keys %r, expected %r" % (what, list(info.keys()), [k for k, _ in hdr]))
         for k, v in hdr:
             if not tsmeta.same_value(info[k], v):
@@ -377,7 +377,8 @@ class C17(Property):
         except (ValueError, UnicodeDecodeError) as e:
             raise Violation("mdoc_invalid", "mdoc:invalid", "%s: %s is not a parsable mdoc: %s" % (what, path, e))
         hdr, titles = self.header_truth(t)
-        if [k for k, _ in p["header"]] != [k for k, _ in hdr] or any(not tsmeta.same_value(a[1], b[1]) for a, b in zip(p["header"], hdr)):
+        ph, hh = dict(p["header"]), dict(hdr)
+        if sorted(ph) != sorted(hh) or len(p["header"]) != len(hdr) or any(not tsmeta.same_value(ph[k], hh[k]) for k in hh):
             raise Violation("mdoc_file_header", "header", "%s: written header %r, expected %r" % (what, p["header"], hdr))
         if p["titles"] != titles:
             raise Violation("mdoc_file_header", "titles", "%s: written titles %r, expected %r" % (what, p["titles"], titles))
